@@ -35,6 +35,7 @@ def required_cells(tier):
             "coupling:rotated": 3, "coupling:degenerate": 2, "unique": 3,
             "subdiv:None": 3, "prefix": 5, "ladder": 2, "trace": 3,
             "start!=0": 3, "tau:set": 2, "K:set": 5,
+            "pt-inspected-before-use": 5,
             "pt-route:file": 1, "pt-route:auto-file": 1,
             "pt-route:file+reopen-simple": 1, "pt-route:reimport-file": 1,
             "pt-route&non-diagonal-coupling": 4,
@@ -189,6 +190,13 @@ def run_case(case):
     dyn_t = _tempo(g, g["sys_a"], params)
     log_a = list(probe_a.log)
     pt = _pt(g, params)
+    if i % 3 == 2:
+        # the process tensor is inspected before it is used (read-only)
+        for k in range(len(pt)):
+            pt.get_mpo_tensor(k, transformed=False)
+            pt.get_cap_tensor(k)
+        pt.get_bond_dimensions()
+        cells.append("pt-inspected-before-use")
     g["layout"] = [None, "fortran", None, "transposed-view", "strided"][i % 5]
     if g["layout"]:
         cells.append("initial-state-layout:" + g["layout"])
